@@ -15,6 +15,10 @@ use chewing::dictionary::{
     Dictionary, DictionaryBuilder, DictionaryInfo, DictionaryMut, Entries, Layered, LookupStrategy,
     Phrase, TrieBuf, TrieBuilder, TrieOpenOptions,
 };
+use chewing::editor::keyboard::{KeyCode, KeyboardLayout, Qwerty};
+use chewing::editor::{
+    AbbrevTable, BasicEditor, ConversionEngineKind, Editor, LaxUserFreqEstimate, SymbolSelector,
+};
 use chewing::zhuyin::{Syllable, SyllableSlice};
 use std::cell::RefCell;
 use std::collections::BTreeMap;
@@ -144,6 +148,7 @@ fn enc_kpaths(k: &[Vec<(usize, usize)>]) -> String {
 }
 
 thread_local! { static LAST_PANIC: RefCell<String> = RefCell::new(String::new()); }
+thread_local! { static LAST_PANIC_FILE: RefCell<String> = RefCell::new(String::new()); }
 
 fn panic_class(msg: &str) -> &'static str {
     if msg.contains("on a `None` value") {
@@ -771,6 +776,176 @@ fn run_case(out: &mut Out, st: &mut Stats, stream: &str, eng: Eng, gd: &GenDict,
     }
 }
 
+// ---------------------------------------------------------------- editor histories (oracle only)
+
+/// key sequence of the default (Standard / DaChen) layout for a syllable of SYL_POOL
+fn keys_of(s: &str) -> &'static [u8] {
+    match s {
+        "ㄘㄜˋ" => b"hk4",
+        "ㄕˋ" => b"g4",
+        "ㄧˊ" => b"u6",
+        "ㄒㄧㄚˋ" => b"vu84",
+        "ㄏㄚ" => b"c8 ",
+        "ㄍㄨㄛˊ" => b"eji6",
+        "ㄇㄧㄣˊ" => b"aup6",
+        "ㄒㄧㄣ" => b"vup ",
+        _ => b"",
+    }
+}
+
+/// C03 on what the editor reports after a key: `Editor::intervals` tile `0..Editor::len`, one character
+/// per symbol, non-syllable symbols verbatim at their own position, `Editor::display` = concatenation
+fn check_editor(ed: &Editor) -> Vec<String> {
+    let mut v = vec![];
+    let len = ed.len();
+    let ivs: Vec<Interval> = ed.intervals().collect();
+    let mut pos = 0;
+    let mut tiled = true;
+    for iv in &ivs {
+        if iv.start != pos || iv.end <= iv.start {
+            tiled = false;
+            break;
+        }
+        pos = iv.end;
+    }
+    if !tiled || pos != len {
+        v.push(format!("intervals {:?} do not tile 0..{}", ivs, len));
+    }
+    for iv in &ivs {
+        if iv.end >= iv.start && iv.str.chars().count() != iv.end - iv.start {
+            v.push(format!("interval {:?} has {} characters", iv, iv.str.chars().count()));
+        }
+    }
+    let concat: String = ivs.iter().map(|iv| iv.str.to_string()).collect();
+    let display = ed.display();
+    if display != concat {
+        v.push(format!("display {} is not the concatenation {}", display, concat));
+    }
+    let dchars: Vec<char> = display.chars().collect();
+    for (i, s) in ed.symbols().iter().enumerate() {
+        if let Symbol::Char(c) = s {
+            if dchars.get(i) != Some(c) {
+                v.push(format!("character symbol {:?} at {} is not shown verbatim in {}", c, i, display));
+            }
+        }
+    }
+    v
+}
+
+fn editor_stream(out: &mut Out, rng: &mut Rng, st: &mut Stats, n_hist: usize, max_keys: usize) {
+    let kb = Qwerty;
+    for _ in 0..n_hist {
+        let dense = rng.chance(1, 8);
+        let gd = gen_dict(rng, true, false, dense);
+        // the same entries again for the editor (it owns its dictionary)
+        let sys: Box<dyn Dictionary> = if rng.chance(1, 2) { build_trie(&gd.entries) } else { Box::new(build_triebuf(&gd.entries)) };
+        let dict = Layered::new(vec![sys], Box::new(TrieBuf::new_in_memory()));
+        let eng = *rng.pick(&[Eng::Chewing, Eng::Chewing, Eng::Simple, Eng::Fuzzy]);
+        let mut ed = Editor::new(Box::new(ChewingEngine::new()), dict, LaxUserFreqEstimate::new(0), AbbrevTable::new(), SymbolSelector::default());
+        let mut opts = ed.editor_options();
+        match eng {
+            Eng::Chewing => {}
+            Eng::Simple => {
+                ed.set_conversion_engine(Box::new(SimpleEngine::new()));
+                opts.conversion_engine = ConversionEngineKind::SimpleEngine;
+            }
+            Eng::Fuzzy => {
+                ed.set_conversion_engine(Box::new(FuzzyChewingEngine::new()));
+                opts.lookup_strategy = LookupStrategy::FuzzyPartialPrefix;
+                opts.conversion_engine = ConversionEngineKind::FuzzyChewingEngine;
+            }
+        }
+        opts.auto_shift_cursor = rng.chance(1, 2);
+        opts.phrase_choice_rearward = rng.chance(1, 2);
+        opts.space_is_select_key = rng.chance(1, 4);
+        opts.auto_commit_threshold = *rng.pick(&[39usize, 39, 8, 4]);
+        ed.set_editor_options(opts);
+        st.inc(&format!("ed.histories.{}", eng.name()));
+        let mut hist: Vec<String> = vec![];
+        let n_keys = rng.range(4, max_keys as i64);
+        let mut keys_done = 0;
+        while keys_done < n_keys {
+            // one grammar step = a few key events
+            let mut evs: Vec<(String, chewing::editor::keyboard::KeyEvent)> = vec![];
+            match rng.weighted(&[50, 6, 14, 6, 9, 10, 2, 3]) {
+                0 => {
+                    let s = *rng.pick(&gd.alphabet);
+                    for k in keys_of(s) {
+                        evs.push((format!("{}", *k as char), kb.map_ascii(*k)));
+                    }
+                }
+                1 => {
+                    let k = *rng.pick(&[b'!', b'?', b':', b'<', b'>', b'"']);
+                    evs.push((format!("{}", k as char), kb.map_ascii(k)));
+                }
+                2 => {
+                    let (n, k) = *rng.pick(&[("Left", KeyCode::Left), ("Right", KeyCode::Right), ("Home", KeyCode::Home), ("End", KeyCode::End)]);
+                    evs.push((n.into(), kb.map(k)));
+                }
+                3 => {
+                    let (n, k) = *rng.pick(&[("Bksp", KeyCode::Backspace), ("Del", KeyCode::Del)]);
+                    evs.push((n.into(), kb.map(k)));
+                }
+                4 => evs.push(("Tab".into(), kb.map(KeyCode::Tab))),
+                5 => {
+                    evs.push(("Down".into(), kb.map(KeyCode::Down)));
+                    for _ in 0..rng.below(3) {
+                        evs.push(("Down".into(), kb.map(KeyCode::Down)));
+                    }
+                    let (n, k) = *rng.pick(&[("1", KeyCode::N1), ("2", KeyCode::N2), ("3", KeyCode::N3), ("1", KeyCode::N1), ("Esc", KeyCode::Esc)]);
+                    evs.push((n.into(), kb.map(k)));
+                }
+                6 => evs.push(("Esc".into(), kb.map(KeyCode::Esc))),
+                _ => evs.push(("Enter".into(), kb.map(KeyCode::Enter))),
+            }
+            for (name, ev) in evs {
+                hist.push(name);
+                keys_done += 1;
+                let r = catch_unwind(AssertUnwindSafe(|| {
+                    ed.process_keyevent(ev);
+                    check_editor(&ed)
+                }));
+                st.inc("ed.keys");
+                match r {
+                    Ok(fails) => {
+                        if ed.is_selecting() {
+                            st.inc("ed.keys_in_selecting");
+                        }
+                        if ed.len() >= 4 {
+                            st.inc("ed.states_len_ge4");
+                        }
+                        let strat = eng.strat();
+                        let hw = ed.symbols().iter().all(|s| match s {
+                            Symbol::Syllable(s) => !gd.dict.lookup_all_phrases(&[*s].as_slice(), strat).is_empty(),
+                            Symbol::Char(_) => true,
+                        });
+                        if !hw {
+                            st.inc("ed.states_noword");
+                        } else if let Some(f) = fails.first() {
+                            out.oracle_fail("C03", "new", &format!("editor: {} ({} failures) :: engine={} dict=[{}] keys={}", f, fails.len(), eng.name(),
+                                gd.dict.entries().map(|(k, p)| format!("{}={}:{}", k.iter().map(|s| s.to_string()).collect::<Vec<_>>().join("+"), p.as_str(), p.freq())).collect::<Vec<_>>().join(" "),
+                                hist.join(" ")));
+                            keys_done = n_keys;
+                            break;
+                        }
+                    }
+                    Err(_) => {
+                        let file = LAST_PANIC_FILE.with(|m| m.borrow().clone());
+                        let msg = LAST_PANIC.with(|m| m.borrow().clone());
+                        if file.contains("conversion") {
+                            out.oracle_fail("C03", "new", &format!("editor: conversion panics ({} at {}) :: engine={} keys={}", msg, file, eng.name(), hist.join(" ")));
+                        } else {
+                            st.inc("ed.other_panic"); // not a conversion panic: belongs to C01
+                        }
+                        keys_done = n_keys;
+                        break;
+                    }
+                }
+            }
+        }
+    }
+}
+
 fn main() {
     std::panic::set_hook(Box::new(|info| {
         let msg = if let Some(s) = info.payload().downcast_ref::<&str>() {
@@ -781,6 +956,7 @@ fn main() {
             "?".to_string()
         };
         LAST_PANIC.with(|m| *m.borrow_mut() = msg);
+        LAST_PANIC_FILE.with(|m| *m.borrow_mut() = info.location().map(|l| l.file().to_string()).unwrap_or_default());
     }));
     let mut out = Out::new();
     let mut rng = Rng::new(seed_from_env());
@@ -838,6 +1014,7 @@ fn main() {
             }
         }
     }
+    editor_stream(&mut out, &mut rng, &mut st, if thorough { 20000 } else { 1500 }, if thorough { 80 } else { 40 });
     for (k, v) in &st.m {
         out.stat(k, v);
     }
